@@ -223,7 +223,7 @@ PATTERNS_Q = [("aa",), ("aba", "bb"), ("ab",), ("aa", "aab"), ("abba",), ("aab",
 PATTERNS_T = PATTERNS_Q + [("aaa",), ("abb", "bab"), ("aabb",), ("abab",), ("a", "aaa"), ("ab", "ba"), ("aaa", "aba", "bb")]
 
 
-def campaign(run, tier, seed, want_mc=True):
+def campaign(run, tier, seed, want_mc=True, focus=None):
     """Loop conformance of recorded searches against Search.tla + all time-slicings of their universes.
     Returns (number of loop traces accepted, rejected list, number of universes model-checked)."""
     import concurrent.futures
@@ -254,6 +254,10 @@ def campaign(run, tier, seed, want_mc=True):
             cfgs.append(("a", p, "ab", "s0", "needrev", fl, "one" if fl == "default" else "mixed", True))
     cfgs += [("", p, "ab", "s0", "plain", "forest", sch, rev) for p in pats for sch, rev in (("one", True), ("all", False))]
     cfgs = list(dict.fromkeys(cfgs))
+    if focus == "resume" and tier == "quick":
+        # C17's share of the campaign: the README pack, and the searches in which a class can become verified between two of
+        # its own packets (forest database, several strategies per class); C04 validates the whole grid
+        cfgs = [c for c in cfgs if c[4] == "plain" or (c[5] == "forest" and c[4] in ("two", "split", "lazy", "twosets", "pfactory", "syminf", "fac2", "trim"))]
     jobs = pmap(run_model_session, cfgs, procs=16, chunk=1)
     with concurrent.futures.ThreadPoolExecutor(max_workers=12) as ex:
         verdicts = list(ex.map(lambda ij: validate_loop(run, ij[1], ij[0]), list(enumerate(jobs))))
